@@ -14,10 +14,29 @@ Inductive verdict :=
 | VMismatch (step : nat) (what : string)
 | VViolation (step : nat) (kind : string).
 
+(* decimal rendering of a step number *)
+Fixpoint vnat_aux (fuel n : nat) (acc : string) : string :=
+  match fuel with
+  | O => acc
+  | S f =>
+    let d := String (Ascii.ascii_of_nat (48 + Nat.modulo n 10)) EmptyString in
+    match Nat.div n 10 with
+    | O => (d ++ acc)%string
+    | q => vnat_aux f q (d ++ acc)%string
+    end
+  end.
+Definition vnat (n : nat) : string := vnat_aux (S n) n "".
+
 (* A violation takes precedence over a mismatch: it is about the
-   implementation trace alone. *)
+   implementation trace alone.  When the model disagrees with the
+   implementation as well, the verdict says so after the violation kinds
+   (";mismatch:<what>@<step>"): a check that decides another property than
+   the violated ones must still learn that the correspondence is broken. *)
 Definition vcombine (viol mism : verdict) : verdict :=
-  match viol with
-  | VViolation _ _ => viol
-  | _ => mism
+  match viol, mism with
+  | VViolation st k, VMismatch st' what =>
+    VViolation st (k ++ ";mismatch:" ++ what ++ "@" ++ vnat st')%string
+  | VViolation st k, VViolation st' k' => VViolation st (k ++ ";" ++ k' ++ "@" ++ vnat st')%string
+  | VViolation _ _, _ => viol
+  | _, _ => mism
   end.
